@@ -123,6 +123,8 @@ fn main() {
         return;
     }
     let n = if args.thorough() { 8000 } else { 600 };
+    // debugging aid: C01_RANDOM_N=0 runs the enumerated family alone
+    let n = std::env::var("C01_RANDOM_N").ok().and_then(|v| v.parse().ok()).unwrap_or(n);
     let mut rng = gv::rng::Rng::new(args.seed, 1);
     // (program, text, family key)
     let mut progs: Vec<(surf::Expr, String, Option<String>)> = vec![];
@@ -248,6 +250,12 @@ fn main() {
             // unoptimised run agrees: the only situation in which the optimiser's documented
             // liberty (an unused builtin arithmetic failure may be skipped) can apply
             out.count("opt:permitted-arith-skip-candidate");
+            if let Some(k) = fam {
+                // what the liberty would allow for this candidate, per callee behaviour: for a
+                // failure INSIDE a callee the lenient outcome is still err:arith (nothing to skip)
+                let beh = k.split('/').nth(2).unwrap_or("?");
+                out.count(&format!("opt:candidate:{}:lenient-allows-{}", beh, class_of(lenient)));
+            }
         }
         if ref_usable && &res_opt == strict {
             out.count("opt:agrees-with-reference");
@@ -255,6 +263,9 @@ fn main() {
             // … and it applies only if the optimised outcome is exactly what skipping unneeded
             // *builtin* failures gives (calls are never skipped; see refsem.rs)
             out.count("opt:permitted-arith-skip-taken");
+            if let Some(k) = fam {
+                out.count(&format!("opt:permitted-arith-skip-taken:{}", k.split('/').nth(2).unwrap_or("?")));
+            }
             out.count("skipped:opt-permitted-arith-skip");
             if let Some(k) = fam {
                 out.class(format!("family:{}:opt-skip", k));
